@@ -434,6 +434,18 @@ def check(ctx, rep):
                 nested = []
                 for f in fns:
                     nested += c.closures_of(f)
+                # ... and the type's own inherent methods the comparison calls (`self.version() == other.version()`), depth 2
+                by_np = {}
+                for g in c.built:
+                    by_np.setdefault(g.npath, []).append(g)
+                for _ in range(2):
+                    for f in list(fns + nested):
+                        for bb, t in f.calls():
+                            for g in by_np.get(norm(t.get('resolved') or t.get('callee') or ''), []):
+                                if g not in fns and g not in nested and g.kind == 'AssocFn' and not g.assoc.get('trait') \
+                                        and norm(g.assoc.get('self_adt') or '') == norm(i['self_adt']):
+                                    nested.append(g)
+                                    nested += [h for h in c.closures_of(g) if h not in nested]
                 read = set()
                 for f in fns + nested:
                     read |= fields_read(f)
